@@ -633,7 +633,7 @@ func ruleLoadedDocAnyJSON(c *Ctx) {
 }
 
 func init() {
-	registerRule("designated-before-decoded", 1, "on every path of the reference resolver the value located for a reference is tested for designating nothing before it is decoded into the target", ruleDesignatedBeforeDecoded)
+	registerRule("designated-before-decoded", 2, "on every path of the reference resolver the value located for a reference is tested for designating nothing before it is decoded into the target", ruleDesignatedBeforeDecoded)
 }
 
 // ruleDesignatedBeforeDecoded (C05/C08): on the effect normal form of the reference resolver (helpers inlined),
@@ -701,6 +701,28 @@ func ruleDesignatedBeforeDecoded(c *Ctx) {
 			ndec++
 			v := e.call.args[0]
 			tested := false
+			// a value of struct type (a schema taken out of a map of schemas under its comma-ok) always designates
+			// something: only nil-able values need the test
+			if sc, isCall := v.(svCall); isCall {
+				if g, isF := sc.callee.(*types.Func); isF {
+					if res := g.Type().(*types.Signature).Results(); sc.idx < res.Len() {
+						if _, isStruct := res.At(sc.idx).Type().Underlying().(*types.Struct); isStruct {
+							tested = true
+						}
+					}
+				}
+			}
+			if ix, isIx := v.(svIndex); isIx {
+				if mp, isP := ix.x.(svPath); isP {
+					if t := c.simTypeAtPath(mp); t != nil {
+						if mt, isMap := t.Underlying().(*types.Map); isMap {
+							if _, isStruct := mt.Elem().Underlying().(*types.Struct); isStruct {
+								tested = true
+							}
+						}
+					}
+				}
+			}
 			for _, cd := range p.conds {
 				sc, isCall := cd.v.(svCall)
 				if !isCall || !cd.neg || len(sc.args) != 1 {
@@ -721,4 +743,82 @@ func ruleDesignatedBeforeDecoded(c *Ctx) {
 		return
 	}
 	c.ob(rule, fn+":every-decode-tested", fd.Pos(), ok, why)
+	// what is decoded comes from the loader's own root only where the reference is known to be local (fragment
+	// only, or the root reference): a fast path that answers "#/definitions/x" of the root for
+	// "other.json#/definitions/x" ignores the document the reference names
+	recv := c.recvObj(fd)
+	var refParam types.Object
+	for i := 0; ; i++ {
+		p := c.paramObj(fd, i)
+		if p == nil {
+			break
+		}
+		if isNamed(p.Type(), c.Types, "Ref") {
+			refParam = p
+		}
+	}
+	if recv == nil || refParam == nil {
+		return
+	}
+	localOK, localWhy := true, ""
+	mentionsRoot := func(v sval) bool {
+		found := false
+		svWalk(v, func(x sval) {
+			if q, isP := x.(svPath); isP && q.root == recv {
+				for _, stp := range q.steps {
+					if stp == "root" {
+						found = true
+					}
+				}
+			}
+		})
+		return found
+	}
+	var localTest func(v sval) bool
+	localTest = func(v sval) bool {
+		switch x := v.(type) {
+		case svBin:
+			if x.op == token.LAND || x.op == token.LOR {
+				return localTest(x.x) || localTest(x.y)
+			}
+		case svPath:
+			return x.root == refParam && len(x.steps) > 0 && x.steps[len(x.steps)-1] == "HasFragmentOnly"
+		case svCall:
+			if g, isF := x.callee.(*types.Func); isF && g.Name() == "IsRoot" && x.recv != nil {
+				switch r := x.recv.(type) {
+				case svPath:
+					return r.root == refParam
+				case svAddr:
+					return r.p.root == refParam
+				}
+			}
+		}
+		return false
+	}
+	for _, p := range paths {
+		for _, e := range p.effs {
+			if e.kind != "call" || len(e.call.args) == 0 || !localOK {
+				continue
+			}
+			f, _ := e.call.callee.(*types.Func)
+			if !isDecode(f) || !mentionsRoot(e.call.args[0]) {
+				continue
+			}
+			known := false
+			n := e.ncond
+			if n > len(p.conds) {
+				n = len(p.conds)
+			}
+			for _, cd := range p.conds[:n] {
+				if !cd.neg && !cd.loop && localTest(cd.v) {
+					known = true
+				}
+			}
+			if !known {
+				localOK = false
+				localWhy = "on some path " + svString(e.call.args[0]) + ", taken from the loader's own root, is decoded into the target although the reference is not known to be local (fragment only / the root reference): the document the reference names is ignored"
+			}
+		}
+	}
+	c.ob(rule, fn+":root-only-for-local-refs", fd.Pos(), localOK, localWhy)
 }
